@@ -171,4 +171,5 @@ def st_gate(N, kinds=None):
 
 
 def st_program(N, max_len=10, kinds=None):
-    return st.lists(st_gate(N, kinds), max_size=max_len)
+    g = st_gate(N, kinds)
+    return st.one_of(st.lists(g, max_size=3), st.lists(g, min_size=min(4, max_len), max_size=max_len), st.lists(g, min_size=min(4, max_len), max_size=max_len))
